@@ -95,6 +95,10 @@ type Stats struct {
 	EdgesUsed        int32
 	PermsUsed        int32
 	ClocksUsed       int32
+	PoolsUsed        int32
+	PoolGets         int64
+	PoolReuses       int64
+	PoolDrops        int64
 	StreamOverruns   int64
 }
 
@@ -120,7 +124,7 @@ var (
 	stepCap  int64
 	lastSite int32
 
-	gaps, picks, edges, perms, clocks stream
+	gaps, picks, edges, perms, clocks, poolsS stream
 
 	st     Stats
 	trace  [TraceCap]Switch
@@ -138,6 +142,7 @@ type Config struct {
 	Edges  []uint32 // at a lock/unlock edge: non-zero = take a scheduling decision now
 	Perms  []uint32 // one per map-range visit: encoded permutation, 0 = canonical order
 	Clocks []uint32 // one per clock read: encoded delta
+	Pools  []uint32 // one per sync.Pool.Get of instrumented code: 1 = a GC has just emptied the pool
 	// StepCap bounds the number of instrumented statements of a concurrent run.
 	StepCap int64
 	// ClockBase is the simulated epoch in nanoseconds.
@@ -184,6 +189,7 @@ func Load(c *Config) {
 	loadStream(&edges, c.Edges)
 	loadStream(&perms, c.Perms)
 	loadStream(&clocks, c.Clocks)
+	loadStream(&poolsS, c.Pools)
 	stepCap = c.StepCap
 	if stepCap <= 0 {
 		stepCap = 1 << 40
@@ -216,7 +222,8 @@ func Snapshot() Stats {
 	s.EdgesUsed = min32(edges.pos, edges.n)
 	s.PermsUsed = min32(perms.pos, perms.n)
 	s.ClocksUsed = min32(clocks.pos, clocks.n)
-	s.StreamOverruns = gaps.over + picks.over + edges.over + perms.over + clocks.over
+	s.PoolsUsed = min32(poolsS.pos, poolsS.n)
+	s.StreamOverruns = gaps.over + picks.over + edges.over + perms.over + clocks.over + poolsS.over
 	return s
 }
 
